@@ -19,7 +19,7 @@ TInit == tid \in 1..Len(Traces) /\ l = 1 /\ MInit
 Ev == T[l]
 IsEv(a) == l <= Len(T) /\ Ev.a = a /\ l' = l + 1 /\ UNCHANGED tid
 
-Res == [none |-> Ev.none, off |-> Ev.off, len |-> Ev.len, cap |-> Ev.cap]
+Res == [none |-> Ev.none, off |-> Ev.off, len |-> Ev.len, cap |-> Ev.cap, tlv |-> Ev.tlv]
 \* the reference reader is the oracle for well-formed Type 2 images (tag answering throughout)
 RefApplies == C.kind = "T2" /\ Ev.call = "ndef" /\ ~C.silent /\ Len(C.mem) > 0 /\ WellFormed(C.mem, Lo, Hi)
 RefOk == RefApplies => LET r == RefRead(C.mem, Lo, Hi) IN ~Ev.none /\ Ev.off = r.off /\ Ev.len = r.len
@@ -37,11 +37,12 @@ Real == GBegin \/ GCmd \/ GSelect \/ GRead \/ GReadAt \/ GRetry \/ GSense \/ GFi
 Why == CASE Ev.a = "Raise" -> <<"exception", Ev.exc, call>>
          [] Ev.a = "Finish" -> IF Ev.none \/ InArea(Res, Lo, Hi)
                                THEN <<"reference", RefRead(C.mem, Lo, Hi)>>
-                               ELSE <<"result", SelectSeq(<<"off<lo", "off+len>hi", "len>cap", "cap>area">>,
+                               ELSE <<"result", SelectSeq(<<"off<lo", "off+len>hi", "len>cap", "cap>area", "cap>fits">>,
                                         LAMBDA n : CASE n = "off<lo" -> Res.off < Lo
                                                      [] n = "off+len>hi" -> Res.off + Res.len > Hi
                                                      [] n = "len>cap" -> Res.len > Res.cap
-                                                     [] n = "cap>area" -> Res.cap > Hi - Lo), call, Lo, Hi>>
+                                                     [] n = "cap>area" -> Res.cap > Hi - Lo
+                                                     [] n = "cap>fits" -> ~CapFits(Res, Hi)), call, Lo, Hi>>
          [] Ev.a \in {"Read", "ReadAt"} -> IF ncmd >= Bud THEN <<"budget", ncmd>> ELSE <<"repeat", Ev.u, call>>
          [] Ev.a = "Retry" -> IF ncmd >= Bud THEN <<"budget", ncmd>> ELSE <<"retry-after-answer", nretry>>
          [] OTHER -> IF ncmd >= Bud THEN <<"budget", ncmd>> ELSE <<"guard", call>>
